@@ -40,7 +40,7 @@ ASSUMPTIONS = [
 FLOORS = {'steps': 5000, 'staleness_opportunities': 200,
           'fresh_model_comparisons': 500, 'name_sets': 10,
           'hostile_steps': 20, 'derived_models': 30,
-          'long_chain_steps': 60}
+          'long_chain_steps': 60, 'reloads_into_the_same_model': 5}
 ANCHOR_FUNCS = {
     'xlcalculator/evaluator.py': ['Evaluator.evaluate',
                                   'Evaluator.set_cell_value',
@@ -103,6 +103,23 @@ def as_number(n):
         delta = d - EPOCH
         return ('num', delta.days + delta.seconds / 86400.0)
     return n
+
+
+def close(a, b):
+    """numbers agree to 1e-12 relative (whole numbers beyond 2^53 are
+    multiplied exactly by the library and as doubles by the reference)"""
+    if a == b:
+        return True
+    if isinstance(a, tuple) and isinstance(b, tuple) and len(a) == 2 and \
+            len(b) == 2:
+        if a[0] == 'value' and b[0] == 'value':
+            return close(a[1], b[1])
+        if a[0] == 'num' and b[0] == 'num':
+            try:
+                return abs(a[1] - b[1]) <= 1e-12 * max(abs(a[1]), abs(b[1]))
+            except (TypeError, OverflowError):
+                return False
+    return False
 
 
 class ComputedLog:
@@ -294,18 +311,18 @@ class History:
                           f'formula currently fails ({want[1]})',
                           'evaluate-vs-reference')
             return
-        if got != want:
+        if not close(got, want):
             self.fail(f'evaluate({a}) -> {got}, reference for the current '
                       f'inputs {want[1]}', 'evaluate-vs-reference')
             return
         self.evaluated[key] = want
         c = self.wb.cells.get(key)
         if build.is_formula(c):
-            self.known[key] = want[1]
+            self.known[key] = got[1]
             # the stored value becomes that value
             stored = as_number(monitors.norm(self.model.cells[a].value)) \
                 if a in self.model.cells else ('missing',)
-            if stored != want[1]:
+            if not close(stored, want[1]):
                 self.fail(f'after evaluate({a}) the stored value is '
                           f'{stored}, evaluate returned {want[1]}',
                           'stored-value')
@@ -323,6 +340,34 @@ class History:
                 self.fail(f'evaluate({a}) -> {got} but a freshly compiled '
                           f'model with the current inputs gives {fv}',
                           'evaluate-vs-fresh-model')
+
+    def do_save(self):
+        """the model's state is written to its JSON file ..."""
+        path = os.path.join(bootstrap.VERIF, 'out', 'c04',
+                            f'saved{self.ctx.shard}.json')
+        os.makedirs(os.path.dirname(path), exist_ok=True)
+        self.model.persist_to_json_file(path)
+        self.saved = (path, dict(self.wb.cells))
+        self.log.append('save()')
+        self.ctx.event('steps')
+
+    def do_reload(self):
+        """... and later read back INTO THE SAME Model object, which the
+        Evaluator goes on using (a reset to the saved state)"""
+        path, cells = self.saved
+        self.log.append('reload()')
+        self.ctx.event('steps')
+        self.ctx.event('reloads_into_the_same_model')
+        try:
+            self.model.construct_from_json_file(path, build_code=True)
+        except Exception as e:  # noqa
+            self.fail(f'construct_from_json_file raised {e!r}', 'set-raises')
+            return
+        self.wb.cells.clear()
+        self.wb.cells.update(cells)
+        self.known = {}
+        self.evaluated = {}
+        self.pending_stale = set()
 
     def do_get(self, key, via_name=None):
         a = via_name or build.addr(key)
@@ -423,7 +468,10 @@ def run_sampled(ctx, count):
             x = rng.random()
             if x < 0.3:
                 k = rng.choice(m.inputs)
-                v = rng.choice([0, 1, 2, 3, -1, 0.5, 10, 7, 2.5, True, False])
+                v = rng.choice([0, 1, 2, 3, -1, 0.5, 10, 7, 2.5, True, False,
+                                # values that need all 17 significant digits
+                                0.1 + 0.2, 1 / 3, 1.0000000000000002,
+                                123456789.12345678, 0.7 * 3])
                 y = rng.random()
                 if use_names and y < 0.4:
                     nm = [n for n, t in names.items()
@@ -444,6 +492,12 @@ def run_sampled(ctx, count):
             elif x < 0.38:
                 H.do_set(rng.choice(m.inputs), rng.choice([0, 1, 2, 3, 7]),
                          via_xlcell=True)
+                ctx.event('hostile_steps')
+            elif x < 0.40 and prov == 'compiled' and not use_names:
+                if getattr(H, 'saved', None) is None:
+                    H.do_save()
+                else:
+                    H.do_reload()
                 ctx.event('hostile_steps')
             elif x < 0.85:
                 k = rng.choice(all_keys)
